@@ -39,6 +39,22 @@ var zeroCoordScalars = []struct {
 	{521, 351, "x2"}, {521, 555, "x2"}, {521, 819, "x2"}, {521, 968, "y2"}, {521, 1010, "x2"}, {521, 1195, "y2"}, {521, 1463, "y2"}, {521, 2946, "y2"},
 }
 
+// bigZeroCoordScalars: P-521 scalars with exactly one leading zero byte in d whose public point has
+// two leading zero bytes in x (d1x2) or y (d1y2) (search over d = 2^519 + i, i < 20000): the shapes
+// where the coordinates are shorter than the private scalar.
+var bigZeroCoordScalars = []struct {
+	Curve int
+	D     string
+	Class string
+}{
+	{521, "8000000000000000000000000000000000000000000000000000000000000000000000000000000000000000000000000000000000000000000000000000000001", "d1x2"},
+	{521, "8000000000000000000000000000000000000000000000000000000000000000000000000000000000000000000000000000000000000000000000000000000126", "d1x2"},
+	{521, "8000000000000000000000000000000000000000000000000000000000000000000000000000000000000000000000000000000000000000000000000000000164", "d1x2"},
+	{521, "8000000000000000000000000000000000000000000000000000000000000000000000000000000000000000000000000000000000000000000000000000000286", "d1y2"},
+	{521, "80000000000000000000000000000000000000000000000000000000000000000000000000000000000000000000000000000000000000000000000000000003c2", "d1y2"},
+	{521, "8000000000000000000000000000000000000000000000000000000000000000000000000000000000000000000000000000000000000000000000000000000954", "d1y2"},
+}
+
 type c14Case struct {
 	Curve   int     `json:"curve"`            // 256, 384, 521; 0 = Ed25519
 	D       rc.Hex  `json:"d"`                // private scalar (big-endian, exactly as used) or Ed25519 seed
@@ -315,6 +331,10 @@ func genC14Case(t *rapid.T) c14Case {
 	case cls == 0:
 		c.Curve = 0
 		c.D = rapid.SliceOfN(rapid.Byte(), 32, 32).Draw(t, "seed")
+	case cls == 1:
+		e := rapid.SampledFrom(bigZeroCoordScalars).Draw(t, "bigtable")
+		d, _ := new(big.Int).SetString(e.D, 16)
+		c.Curve, c.D = e.Curve, d.Bytes()
 	case cls <= 4:
 		// a scalar whose public point has a short coordinate, or its negation (same x, full-size d)
 		e := rapid.SampledFrom(zeroCoordScalars).Draw(t, "table")
@@ -401,6 +421,13 @@ func TestC14_Table(t *testing.T) {
 			stats.Class("table/" + e.Class)
 			judge(t, "c14", c, checkC14)
 		}
+	}
+	for _, e := range bigZeroCoordScalars {
+		d, _ := new(big.Int).SetString(e.D, 16)
+		n++
+		stats.Eval()
+		stats.Class("table/" + e.Class)
+		judge(t, "c14", c14Case{Curve: e.Curve, D: d.Bytes(), Message: rc.Hex("table")}, checkC14)
 	}
 	for _, cv := range []int{256, 384, 521} {
 		n++
